@@ -839,6 +839,12 @@ pixman_image_set_indexed (pixman_image_t *        image,
 {
     bits_image_t *bits = (bits_image_t *)image;
 
+    /* Only a bits image has a palette; in the other members of the union
+     * that field is the colour of a solid fill or the stops of a gradient.
+     */
+    if (image->type != BITS)
+	return;
+
     if (bits->indexed == indexed)
 	return;
 
